@@ -68,3 +68,31 @@ CHECKS["C10"] = {
     "level_text": "A small executable model of the builder state (columns, source, default rows) predicts the Result of every call and the exact rows x columns of every rendering; the real builder is compared with it after every call of every history up to the bound. Exploration is right: the contract is over call histories and the interesting ones are short.",
     "level_note": "Trusted: the 60-line model in c10.rs and the dialect lexer used to read the VALUES list back.",
 }
+
+CHECKS["C11"] = {
+    "parts": BASE,
+    "level": "exploration",
+    "technique": "runtime monitor: independent reference template scanner vs cust_with_values / cust_with_expr(s) rendering in both modes, plus inject_parameters(build) == to_string",
+    "rule": "templates assembled from 14 piece kinds (words, numbers, operators, whitespace, commas, parentheses, quoted literals and identifiers containing marks and doubled quotes, delimited placeholders incl. repeated/reordered $n, doubled marks, the other dialect's mark, `$word`, lone `$`): every piece sequence of length <= 4 (quick) / 5 (thorough) x 3 backends, random templates of up to 20 pieces incl. SQLite [bracket] identifiers; values are tagged integers, strings containing marks and quotes, or compound expressions; non-trivial = template has a placeholder or >= 2 piece kinds; distinct = distinct (template, backend)",
+    "assumptions": [
+        "placeholders and doubled marks are delimited from adjacent words (on Postgres `abc$$` is an identifier and `$1$$` is ambiguous, so such gluing is outside the domain)",
+        "inject_parameters is checked only for statements whose text outside quotes contains no literal mark (a literal `?` in built SQL is indistinguishable from a placeholder by construction)",
+    ],
+    "design_ref": "DESIGN.md §5 C11",
+    "level_text": "The rendered text and the returned Values of every generated template are compared byte-for-byte with the expansion computed by an independently written scanner (quoted runs copied, doubled mark -> one mark, ? positional, $n numbered, everything else copied). Bounded-exhaustive over piece sequences because substitution bugs depend on the local token context.",
+    "level_note": "Trusted: the 90-line reference scanner in c11.rs. Sub-expressions substituted for placeholders are rendered by sea-query itself (stand-alone) and spliced by the reference.",
+}
+
+CHECKS["C19"] = {
+    "parts": [{"variant": "gen19", "kind": "script", "script": "c19_driver.py"}],
+    "level": "exploration",
+    "technique": "runtime monitor over generated programs: type definitions are generated, compiled against /repo (the derive macros execute), run, and every observable is compared with an independent naming/quoting model",
+    "rule": "programs: generated crates of ~300 (quick) / 16 x ~600 (thorough) enums, unit structs and enum_def structs with names from PascalCase / acronym / digit / underscore patterns and every accepted attribute combination (#[iden = ..], #[iden(rename = ..)], #[method = ..] / #[iden(method = ..)], #[iden(flatten)], enum_def prefix/suffix/table_name), with rename strings chosen so that both the derive's quoting fast path and the general path are taken; non-trivial = multi-word/acronym/digit name or any attribute option; distinct = distinct (name pattern, attribute combo, path kind)",
+    "assumptions": [
+        "snake_case model written independently in Python and cross-checked against heck 0.4 at generation time; a name on which they differ is discarded as ambiguous and counted",
+        "only attribute forms that the existing derive tests show to be accepted are generated; a generated crate that fails to compile makes the run inconclusive, never a violation",
+    ],
+    "design_ref": "DESIGN.md §5 C19",
+    "level_text": "The property quantifies over programs, so the monitor generates programs, lets rustc run the derive macros on them and compares Iden::to_string / unquoted / quoted / prepare (three quote styles) / IdenStatic::as_str of every generated type with the documented naming rules and with the general quoting path.",
+    "level_note": "Trusted: the Python naming model in c19_driver.py and rustc. Raw identifiers (r#type) and flatten fields named `s` are outside the generated domain.",
+}
